@@ -176,6 +176,120 @@ func closeStatus(p *Prog, a acquisition) (bool, string) {
 		}
 		return false, "never closed and never handed off"
 	}
+	// a writer that stays in this function must report its Close error on the success path too: a deferred
+	// Close nested under `if <named result> != nil` only runs (and only reports) when the body already failed
+	if transferred == "" {
+		results := namedErrorResults(info, funcType(a.Fn))
+		for _, cl := range closers {
+			ds, ok := cl.(*ast.DeferStmt)
+			if !ok {
+				continue
+			}
+			guardedOnly := false
+			ast.Inspect(ds, func(n ast.Node) bool {
+				ifs, ok := n.(*ast.IfStmt)
+				if !ok {
+					return true
+				}
+				for _, r := range results {
+					if o, nonNil, ok := errNilTest(info, ifs.Cond); ok && o == r && nonNil {
+						// is the Close call inside this if?
+						ast.Inspect(ifs.Body, func(m ast.Node) bool {
+							if call, ok := m.(*ast.CallExpr); ok {
+								if sel, ok := ast.Unparen(call.Fun).(*ast.SelectorExpr); ok && sel.Sel.Name == "Close" && identObj(info, sel.X) == a.Var {
+									guardedOnly = true
+								}
+							}
+							return true
+						})
+					}
+				}
+				return true
+			})
+			if guardedOnly && len(closers) == 1 {
+				return false, "the only Close of this writer is deferred under `if " + results[0].Name() + " != nil`: on the success path the writer is never closed and a failing Close (lost final flush) is never reported"
+			}
+			// the Close error must reach a named result on the success path: among the assignments to a named
+			// result that carry the Close error, at least one is not guarded by `<result> != nil`
+			if lit, ok := ast.Unparen(ds.Call.Fun).(*ast.FuncLit); ok && len(results) > 0 {
+				// variables holding the Close error
+				carriers := map[types.Object]bool{}
+				isCloseCall := func(e ast.Expr) bool {
+					call, ok := ast.Unparen(e).(*ast.CallExpr)
+					if !ok {
+						return false
+					}
+					sel, ok := ast.Unparen(call.Fun).(*ast.SelectorExpr)
+					return ok && sel.Sel.Name == "Close" && identObj(info, sel.X) == a.Var
+				}
+				mentionsClose := func(e ast.Expr) bool {
+					found := false
+					ast.Inspect(e, func(m ast.Node) bool {
+						if ex, ok := m.(ast.Expr); ok && isCloseCall(ex) {
+							found = true
+						}
+						if id, ok := m.(*ast.Ident); ok && carriers[identObj(info, id)] {
+							found = true
+						}
+						return !found
+					})
+					return found
+				}
+				ast.Inspect(lit.Body, func(m ast.Node) bool {
+					if as, ok := m.(*ast.AssignStmt); ok && len(as.Rhs) == 1 && isCloseCall(as.Rhs[0]) && len(as.Lhs) == 1 {
+						if o := identObj(info, as.Lhs[0]); o != nil {
+							isRes := false
+							for _, r := range results {
+								if r == o {
+									isRes = true
+								}
+							}
+							if !isRes {
+								carriers[o] = true
+							}
+						}
+					}
+					return true
+				})
+				total, unguarded := 0, 0
+				ast.Inspect(lit.Body, func(m ast.Node) bool {
+					as, ok := m.(*ast.AssignStmt)
+					if !ok {
+						return true
+					}
+					for i, lhs := range as.Lhs {
+						isRes := false
+						for _, r := range results {
+							if identObj(info, lhs) == r {
+								isRes = true
+							}
+						}
+						if !isRes || i >= len(as.Rhs) || !mentionsClose(as.Rhs[i]) {
+							continue
+						}
+						total++
+						guarded := false
+						for cur := p.Parent(as); cur != nil && cur != lit; cur = p.Parent(cur) {
+							if ifs, ok := cur.(*ast.IfStmt); ok {
+								for _, r := range results {
+									if o, nonNil, ok := errNilTest(info, ifs.Cond); ok && o == r && nonNil {
+										guarded = true
+									}
+								}
+							}
+						}
+						if !guarded {
+							unguarded++
+						}
+					}
+					return true
+				})
+				if total > 0 && unguarded == 0 {
+					return false, "the Close error of this writer is joined into " + results[0].Name() + " only under `" + results[0].Name() + " != nil`: when the body succeeded a failing Close (lost final flush) is reported as success"
+				}
+			}
+		}
+	}
 	g := p.CFGOf(body, info)
 	// returns inside the error check of the acquisition itself hold no valid writer
 	skip := func(r *ast.ReturnStmt) bool {
